@@ -42,6 +42,7 @@ CONSTANTS
   MaxOps, OwnerOps, Sizes, TakeSet, OpKinds, MOD,
   FixA, FixH,            \* BOOLEAN
   OrdCurrent,            \* "Relaxed" (1.22.1) | "Acquire"
+  Scenario,              \* "" = every thread picks its operations freely; otherwise the name of a fixed set of programs
   Mutant
 
 VARIABLES
@@ -82,6 +83,15 @@ Ops ==
      \cup taking("values") \cup taking("idsvalues")
      \cup plain("skip") \cup plain("len") \cup plain("hasmore")
      \cup taking("intoseq") \cup plain("drop")
+
+\* Fixed per-thread programs (three-party situations whose every interleaving is exported for replay)
+O(k, n, take) == [k |-> k, n |-> n, take |-> take]
+ScenarioProg ==
+  CASE Scenario = "tri_buf_skip" -> <<  <<O("bnew", 3, -1), O("bnext", 0, -1)>>, <<O("nextid", 0, -1)>>, <<O("skip", 0, -1)>> >>
+    [] Scenario = "tri_chunk_skip" -> << <<O("chunk", 3, -1)>>, <<O("chunk", 2, -1)>>, <<O("skip", 0, -1)>> >>
+    [] Scenario = "tri_query" -> <<  <<O("chunk", 1, -1)>>, <<O("chunk", 4, -1)>>, <<O("len", 0, -1), O("len", 0, -1)>> >>
+    [] Scenario = "tri_hasmore" -> << <<O("next", 0, -1)>>, <<O("bnew", 4, -1), O("bnext", 0, -1)>>, <<O("hasmore", 0, -1), O("hasmore", 0, -1)>> >>
+    [] OTHER -> << >>
 
 (***************************************************************************)
 (* Results (shape of the harness' Ret records)                              *)
@@ -183,7 +193,9 @@ CallBody(t, o) ==
   /\ UNCHANGED <<cf, reserved, yielded, completed, taken, noneSeen, calls, tk, polled, hb>>
 
 Call(t, o) ==
-  /\ o \in Ops
+  /\ IF Scenario = "" \/ t = 0 THEN o \in Ops
+     ELSE /\ t <= Len(ScenarioProg) /\ nops[t] < Len(ScenarioProg[t])
+          /\ o = ScenarioProg[t][nops[t] + 1]
   /\ IF t = 0
        THEN /\ nops[0] < OwnerOps
             /\ \A u \in Workers : pc[u] = "done"
@@ -383,6 +395,7 @@ Ret(t) ==
 
 Stop(t) ==
   /\ pc[t] = "idle"
+  /\ (Scenario # "" /\ t # 0) => nops[t] = Len(ScenarioProg[t])
   /\ pc' = [pc EXCEPT ![t] = "done"]
   /\ UNCHANGED <<cf, reserved, yielded, completed, taken, noneSeen, calls, alive, op, tk, got, polled, left, res, buf, nops, mon, hb, h>>
 
